@@ -26,3 +26,25 @@ package internal
 //@   let u = arg(WithUnaryClientInterceptors, 0)
 //@   ensures [unary-chain-order] calls(WithUnaryClientInterceptors) == 1 && len(u) == 5 && u[0] == clientinterceptors.UnaryTracingInterceptor && u[1] == clientinterceptors.DurationInterceptor && u[2] == clientinterceptors.PrometheusInterceptor && u[3] == clientinterceptors.BreakerInterceptor && u[4] == ret(clientinterceptors.TimeoutInterceptor)
 //@   ensures [configured-timeout] calls(clientinterceptors.TimeoutInterceptor, local(cliOpts).Timeout) == 1
+
+// Client options that add a dial option append it: the options collected before (the p2c balancer configuration
+// NewClient puts first, interceptors, credentials ...) all stay, in order.
+//@ macro appendsOne(options) = options != nil && len(options.DialOptions) == old(len(options.DialOptions)) + 1 && forall(i, 0, old(len(options.DialOptions)), options.DialOptions[i] == old(options.DialOptions[i]))
+//@ func WithDialOption$1
+//@   prop C14
+//@   requires options != nil
+//@   ensures [appended-earlier-options-kept] appendsOne(options) && options.DialOptions[len(options.DialOptions) - 1] == opt
+//@ func WithTransportCredentials$1
+//@   prop C14
+//@   requires options != nil
+//@   ensures [appended-earlier-options-kept] appendsOne(options) && options.DialOptions[len(options.DialOptions) - 1] == ret(grpc.WithTransportCredentials) && arg(grpc.WithTransportCredentials, 0) == credentials && options.Secure
+//@ func WithUnaryClientInterceptor$1
+//@   prop C14
+//@   opaque WithUnaryClientInterceptors
+//@   requires options != nil
+//@   ensures [appended-earlier-options-kept] appendsOne(options) && options.DialOptions[len(options.DialOptions) - 1] == ret(WithUnaryClientInterceptors)
+//@ func WithStreamClientInterceptor$1
+//@   prop C14
+//@   opaque WithStreamClientInterceptors
+//@   requires options != nil
+//@   ensures [appended-earlier-options-kept] appendsOne(options) && options.DialOptions[len(options.DialOptions) - 1] == ret(WithStreamClientInterceptors)
